@@ -102,6 +102,7 @@ static inline void djb_push_back(djb_t *z, rci_t target, rci_t source, srctyp_t 
     z->target = (rci_t *)realloc(z->target, z->allocated * sizeof(rci_t));
     z->source = (rci_t *)realloc(z->source, z->allocated * sizeof(rci_t));
     z->srctyp = (srctyp_t *)realloc(z->srctyp, z->allocated * sizeof(srctyp_t));
+    if (z->target == NULL || z->source == NULL || z->srctyp == NULL) m4ri_die("realloc failed.\n");
   }
   z->target[z->length] = target;
   z->source[z->length] = source;
